@@ -2,7 +2,7 @@
 
 from __future__ import annotations
 
-from asyncio import ensure_future, gather
+from asyncio import ensure_future, gather, get_running_loop
 from contextlib import suppress
 from copy import copy
 from typing import TYPE_CHECKING, Any, NamedTuple, cast
@@ -21,7 +21,7 @@ from .build_execution_plan import build_execution_plan
 from .computation import Computation
 from .incremental_publisher import IncrementalPublisher
 from .stream_item_queue import StreamItemQueue
-from .work_queue import Work, WorkResult, WorkTask
+from .work_queue import Work, WorkResult, WorkTask, cancel_work
 
 if TYPE_CHECKING:
     from collections.abc import AsyncIterator, Iterator, Sequence
@@ -220,19 +220,9 @@ class IncrementalExecutor(Executor[DeliveryGroupMap]):
         be run synchronously.
         """
         awaitables: list[Any] = []
-        is_awaitable = self.is_awaitable
-        for task in self.tasks:
-            pending_future = task.computation.pending_future
-            abort_result = task.computation.abort(reason)
-            if is_awaitable(abort_result):
-                awaitables.append(abort_result)
-            if pending_future is not None:
-                # wait until the cancelled future has settled as well
-                awaitables.append(pending_future)
-        for stream in self.streams:
-            abort_result = stream.queue.abort(reason)
-            if is_awaitable(abort_result):
-                awaitables.append(abort_result)
+        # also reaches the work carried by the results of execution groups that
+        # were executed early and have completed already
+        cancel_work(Work(self.groups, self.tasks, self.streams), reason, awaitables)
         if not awaitables:
             return None
 
@@ -456,6 +446,11 @@ class IncrementalExecutor(Executor[DeliveryGroupMap]):
         This makes sure that a new deferred execution group does not run
         before the execution step that created it has finished.
         """
+
+        try:
+            get_running_loop()
+        except RuntimeError:
+            return  # no running event loop yet: primed when the work is started
 
         async def prime() -> None:
             self.prime_now(computation)
@@ -722,7 +717,7 @@ class IncrementalExecutor(Executor[DeliveryGroupMap]):
                         item,
                         None,
                     )
-                except Exception:
+                except BaseException:  # also when the item future is cancelled
                     abort_result = self.abort()
                     if is_awaitable(abort_result):
                         await abort_result
@@ -761,7 +756,7 @@ class IncrementalExecutor(Executor[DeliveryGroupMap]):
                             raw_error, item_type, field_details_list, item_path
                         )
                         resolved = None
-                except Exception:
+                except BaseException:  # also when the item future is cancelled
                     abort_result = self.abort()
                     if is_awaitable(abort_result):
                         await abort_result
